@@ -130,6 +130,11 @@ func (s *Signer) CheckHex(str string) (bool, []byte) {
 	if err != nil {
 		return false, nil
 	}
+	if hex.EncodeToString(bs) != str {
+		// Only the canonical (lower-case) encoding, as produced by SignHex,
+		// is a valid token.
+		return false, nil
+	}
 	return s.Check(bs)
 }
 
